@@ -9,9 +9,9 @@ ID = "C13"
 LEVEL = "exploration"
 RULE = ("cases are histories of up to 12 operations over up to 3 lists ([int...], [str...], nested [[int...]...], [int?...]) "
         "and 2 maps (map[str,int]) and their aliases / clones: push, remove, index read / assignment / op=, reverse, join "
-        "(incl. self- and alias-join), clear, clone, map / filter with logging and capturing callbacks, index_of, len, ==, "
+        "(incl. self- and alias-join), clear, clone, map / filter with logging and capturing callbacks (also closures made by a factory that outlived the frame they captured from, one of them counting its calls), index_of, len, ==, "
         "an optional-element list that also stores present optionals produced by built-ins next to a shadow list of the same plain values (the two must stay ==), "
-        "string concatenation of elements; map literal, index read/assignment, replace, remove, contains_key, len, keys, "
+        "a map[int?, int] addressed through plain keys, nil and present optionals produced by built-ins, a [str?...] receiving what map.remove hands back; string concatenation of elements; map literal, index read/assignment, replace, remove, contains_key, len, keys, "
         "values, pairs, clear, clone; indices from {-1, 0, 1, len-1, len, len+1}; every live container is printed after each "
         "step (maps through len + lookups of the key universe, never by printing the map). Oracle = reference interpreter "
         "(Python lists / dicts with identity). Non-trivial = a mutation through one alias is observed through another, or an "
@@ -22,6 +22,7 @@ ASSUMPTIONS = ["order of keys()/values()/pairs() is unspecified: only length and
 S = lambda s: ("lit", "str", s)
 V = lambda n: ("var", n)
 LI, LS = ("list", "int"), ("list", "str")
+FII, FIB = ("fn", ["int"], "int"), ("fn", ["int"], "bool")
 KEYS = ["a", "b", "c"]
 
 PRELUDE = [
@@ -33,6 +34,17 @@ PRELUDE = [
     ("decl", "big", None, ("fn", [("v", "int")], "bool", [("return", ("bin", ">", V("v"), V("kcap")))]), ()),
     ("decl", "tostr", None, ("fn", [("v", "int")], "str", [("return", ("bin", "+", S("#"), V("v")))]), ()),
     ("decl", "first", None, ("fn", [("x", LI)], "int", [("return", ("index", V("x"), I(0)))]), ()),
+    # callbacks that OUTLIVED the frame they captured from (made by a factory): what they captured is reachable only
+    # through the function value itself; `step` / `seen` also exist at module level with other values as decoys
+    ("decl", "step", None, I(1000), ()),
+    ("decl", "mkadd", None, ("fn", [("step", "int")], FII, [("return", ("fn", [("v", "int")], "int", [("return", ("bin", "+", V("v"), V("step")))]))]), ()),
+    ("decl", "add5", None, ("call", V("mkadd"), [I(5)]), ()),
+    ("decl", "mkcount", None, ("fn", [], FII, [("decl", "hits", None, I(0), ()),
+        ("return", ("fn", [("v", "int")], "int", [("decl", "hits", None, ("bin", "+", V("hits"), I(1)), ("modify",)),
+                                                   ("return", ("bin", "+", ("bin", "*", V("v"), I(10)), V("hits")))]))]), ()),
+    ("decl", "cnt", None, ("call", V("mkcount"), []), ()),
+    ("decl", "mkover", None, ("fn", [("step", "int")], FIB, [("return", ("fn", [("v", "int")], "bool", [("return", ("bin", ">", V("v"), V("step")))]))]), ()),
+    ("decl", "over4", None, ("call", V("mkover"), [I(4)]), ()),
     ("decl", "shout", None, ("fn", [("v", "str")], "str", [("return", ("bin", "+", V("v"), S("!")))]), ()),
 ]
 
@@ -67,7 +79,7 @@ def cases(draw):
     g = G(draw)
     stmts = []
     ints, strs, maps, scalars = [], [], [], []
-    has_nested = has_opt = False
+    has_nested = has_opt = has_optkeys = False
     boundary = False
     alias_pairs = 0
 
@@ -90,7 +102,7 @@ def cases(draw):
     for step in range(steps):
         ops = [(5, "push"), (2, "remove"), (3, "read"), (3, "assign"), (2, "opassign"), (2, "reverse"), (2, "join"), (1, "clear"),
                (2, "clone"), (2, "alias"), (2, "map"), (2, "filter"), (2, "index_of"), (1, "len"), (2, "eq"), (1, "newlist"), (1, "concat"),
-               (2, "nested"), (1, "optlist"), (1, "newmap"), (2, "litfrom"), (2, "mapfrom"), (2, "storefrom")]
+               (2, "nested"), (1, "optlist"), (1, "optkeys"), (1, "newmap"), (2, "litfrom"), (2, "mapfrom"), (2, "storefrom")]
         if strs:
             ops += [(2, "strop")]
         if maps:
@@ -141,12 +153,14 @@ def cases(draw):
             g.label("alias")
         elif op == "map":
             name = "m%d" % step
-            stmts.append(("decl", name, None, ("mcall", V(l), "map", [V(g.choice(["dbl", "addk"]))]), ()))
+            stmts.append(("decl", name, None, ("mcall", V(l), "map", [V(g.choice(["dbl", "addk", "add5", "cnt", "add5", "cnt"]))]), ()))
             ints.append(name)
             g.label("map")
+            if stmts[-1][3][3][0][1] in ("add5", "cnt"):
+                g.label("callback-outlived-its-frame")
         elif op == "filter":
             name = "f%d" % step
-            stmts.append(("decl", name, None, ("mcall", V(l), "filter", [V(g.choice(["even", "big"]))]), ()))
+            stmts.append(("decl", name, None, ("mcall", V(l), "filter", [V(g.choice(["even", "big", "over4"]))]), ()))
             ints.append(name)
             g.label("filter")
         elif op == "index_of":
@@ -267,6 +281,37 @@ def cases(draw):
                 stmts.append(("print", ("or", ("index", V("lo"), I(g.int(0, 2))), V("neg1"))))
             else:
                 stmts.append(("print", ("bin", "==", ("index", V("lo"), I(g.int(0, 2))), ("nil",))))
+        elif op == "optkeys":
+            # a map whose KEYS are optional, addressed through plain values, nil and present optionals produced by built-ins;
+            # a [str?...] that receives what map.remove hands back
+            if not has_optkeys:
+                stmts.append(("decl", "mo", None, ("map", "int?", "int", [(I(1), I(10)), (("nil",), I(0))]), ()))
+                stmts.append(("decl", "mss", None, ("map", "str", "str", [(S("a"), S("b")), (S("c"), S("d"))]), ()))
+                stmts.append(("decl", "los", ("list", ("opt", "str")), ("list", [S("x"), ("nil",)]), ()))
+                # the type checker wants an index of exactly the key type: the key universe lives in `int?` variables
+                for i_, kv in enumerate((I(0), I(1), I(2), ("nil",))):
+                    stmts.append(("decl", "kq%d" % i_, ("opt", "int"), kv, ()))
+                has_optkeys = True
+            g.label("optional-keys")
+            stmts.append(("decl", "ko", ("opt", "int"), g.choice([I(1), I(2), ("nil",), ("mcall", V(l), "index_of", [I(g.int(0, 9))]), ("mcall", V(l), "index_of", [("index", V(l), I(0))])]), ()))
+            k = g.choice(["set", "get", "contains", "remove", "replace", "strpush"])
+            if k == "set":
+                stmts.append(("seti", V("mo"), V("ko"), I(g.int(20, 29))))
+            elif k == "get":
+                stmts.append(("print", ("or", ("index", V("mo"), V("ko")), V("neg1"))))
+            elif k == "contains":
+                stmts.append(("print", ("mcall", V("mo"), "contains_key", [V("ko")])))
+            elif k == "remove":
+                stmts.append(("print", ("or", ("mcall", V("mo"), "remove", [V("ko")]), V("neg1"))))
+            elif k == "replace":
+                stmts.append(("print", ("or", ("mcall", V("mo"), "replace", [V("ko"), I(g.int(30, 39))]), V("neg1"))))
+            else:
+                stmts.append(("expr", ("mcall", V("los"), "push", [("mcall", V("mss"), "remove", [S(g.choice(["a", "c", "zz"]))])])))
+                stmts.append(("print", V("los")))
+            e = ("bin", "+", S("mo:"), ("mcall", V("mo"), "len", []))
+            for kk in (V("kq0"), V("kq1"), V("kq2"), V("kq3")):
+                e = ("bin", "+", e, ("bin", "+", S(","), ("or", ("index", V("mo"), kk), V("neg1"))))
+            stmts.append(("print", e))
         elif op == "strop":
             s = g.choice(strs)
             k = g.choice(["push", "map", "index_of", "read", "join", "reverse", "remove"])
